@@ -25,7 +25,17 @@ def selftest():
     O.selftest()
 
 
-def run_engine(engine, refs, queries, k):
+def run_engine(engine, refs, queries, k, same_object=False):
+    if same_object:
+        # the caller passes the very same container object as reference and as query collection
+        obj = list(refs)
+        if engine == "symdel2":
+            return pyrepseq.symdel(obj, max_edits=k, seqs2=obj)
+        if engine == "nn2":
+            return pyrepseq.nearest_neighbor(obj, max_edits=k, seqs2=obj)
+        if engine == "symdeldb":
+            return nn.SymdelDB(obj, k).lookup(obj)
+        return nn.LookupDB(obj).lookup(obj, max_edits=k)
     if engine == "symdel2":
         return pyrepseq.symdel(list(refs), max_edits=k, seqs2=list(queries))
     if engine == "nn2":
@@ -67,8 +77,39 @@ def check_pair(case, rec):
     want = O.neighbours_cross(queries, refs, k, O.lev)
     cl = classify(refs, queries, want)
     rec.note(case, bool(set(cl) & {"equal_positions_hit", "d0_hit", "indel_hit"}), cl + [case["engine"]])
-    got = trip(call("search", run_engine, case["engine"], refs, queries, k))
+    got = trip(call("search", run_engine, case["engine"], refs, queries, k, bool(case.get("same_object")) and refs == queries))
     same_multiset("cross-set", got, want, f"engine={case['engine']} k={k} refs={len(refs)} queries={len(queries)}")
+
+
+def check_many_queries(case, rec):
+    """Thousands of queries against a few hundred references; exact oracle by construction (G.planted_collection)."""
+    n, k, nref = case["n"], case["k"], case["nref"]
+    seqs, fams = G.planted_collection(n, k, case.get("salt", 0), high=True)
+    # references: a slice of low codewords plus every family parent; queries: everything (parents, plants, unrelated codewords)
+    ref_pos = sorted(set(range(nref)) | {f[0] for f in fams})
+    refs = [seqs[p] for p in ref_pos]
+    queries = list(seqs)
+    want = []
+    refindex = {p: r for r, p in enumerate(ref_pos)}
+    for q in range(len(queries)):
+        if q in refindex:
+            want.append((q, refindex[q], 0))
+    for fam in fams:
+        r = refindex[fam[0]]
+        for member in fam[1:]:
+            d = O.lev(seqs[member], seqs[fam[0]])
+            if d <= k:
+                want.append((member, r, d))
+    rec.note(case, True, [f"queries={len(queries)}", case["engine"]])
+    got = trip(call("search", run_engine, case["engine"], refs, queries, k))
+    same_multiset("many-queries", got, want, f"engine={case['engine']} k={k} refs={len(refs)} queries={len(queries)}")
+
+
+def enum_many(tier):
+    for engine in ("symdel2", "symdeldb"):
+        yield {"n": 2600, "nref": 150, "k": 1, "engine": engine, "salt": 3}
+        if tier == "thorough":
+            yield {"n": 9000, "nref": 300, "k": 2, "engine": engine, "salt": 5}
 
 
 @st.composite
@@ -95,7 +136,10 @@ def pair_case(draw, tier="quick"):
         queries = list(refs)
     if engine == "lookupdb" and k == 2:
         queries = queries[:8]
-    return {"refs": list(refs), "queries": list(queries), "k": k, "engine": engine}
+    case = {"refs": list(refs), "queries": list(queries), "k": k, "engine": engine}
+    if mode == "same" and list(refs) == list(queries):
+        case["same_object"] = draw(st.booleans())
+    return case
 
 
 def enum_pairs(tier):
@@ -231,6 +275,7 @@ def machine(tier, rec):
 
 SUBS = [
     Sub("pair_exhaustive", check_pair, enum=enum_pairs),
+    Sub("many_queries", check_many_queries, enum=enum_many),
     Sub("pair_random", check_pair, strategy=lambda tier: pair_case(tier), budget=(2500, 30000)),
     Sub("history", check_history, machine=machine, budget=(400, 5000)),
 ]
